@@ -1,6 +1,7 @@
 //@ assume: DataFile and LeafSet are abstract here; their discard contracts are the ones PROVED on the real code in C06/append_only_file (AppendOnlyFile::discard, which DataFile::discard delegates to) and C02/leaf_set (LeafSet::discard): the pending view becomes the last flushed view
-//@ assume: decided here: PMMRBackend::discard discards all three stores (hash file, data file, leaf set) and leaves the prune list and flags untouched
-//@ assumed_items: 5
+//@ assume: PruneList is abstract in the same way (pending / flushed reading of its bitmap of pruned roots; append_pruned_subtree -- the PIBD path -- extends the pending one): PruneList::discard is decided on the real code in C08/prune_list
+//@ assume: decided here (C08 'discarding uncommitted work never changes what the MMR reports', C06): PMMRBackend::discard makes the pending view of ALL FOUR stores -- hash file, data file, leaf set AND prune list -- the last flushed view, and leaves the flags untouched. (Until round 13 this contract said 'leaves the prune list untouched', a transcription of the code: finding F26)
+//@ assumed_items: 6
 //@ fns: PMMRBackend::discard
 
 #[verifier::external_body]
@@ -28,13 +29,22 @@ impl LeafSet {
     { unimplemented!() }
 }
 
+impl PruneList {
+    pub uninterp spec fn pending(&self) -> Set<int>;
+    pub uninterp spec fn flushed(&self) -> Set<int>;
+    #[verifier::external_body]
+    pub fn discard(&mut self)
+        ensures final(self).pending() == old(self).flushed(), final(self).flushed() == old(self).flushed()
+    { unimplemented!() }
+}
+
 impl PMMRBackend {
 //@ extract store/src/pmmr.rs :: impl PMMRBackend::discard
 //@   ensures:
 //@+    final(self).hash_file.pending() == old(self).hash_file.flushed(),
 //@+    final(self).data_file.pending() == old(self).data_file.flushed(),
 //@+    final(self).leaf_set.pending() == old(self).leaf_set.flushed(),
-//@+    final(self).prune_list == old(self).prune_list,
+//@+    final(self).prune_list.pending() == old(self).prune_list.flushed(),
 //@+    final(self).prunable == old(self).prunable,
 //@ end
 }
